@@ -943,9 +943,14 @@ pub fn c14_packet(c: &mut Ctx, r: &mut Rng, fam: Fam, rp: &RP, case: &Case) {
         c.count("all-positions-covered");
     }
     let kinds: Vec<io::ErrorKind> = if enc.len() <= 64 && !cfg!(miri) { KINDS.to_vec() } else { vec![*r.pick(&KINDS), *r.pick(&KINDS)] };
+    // read side only: Interrupted is the kind std's synchronous loops retry; tokio's read_exact and the
+    // codec's own read sites surface it like any other kind, and the property asks for exactly that
+    // (on the write side a persistent Interrupted would legitimately spin inside std's write_all, so
+    // it is exercised there as a single transient fault below)
+    let rkinds: Vec<io::ErrorKind> = kinds.iter().copied().chain(std::iter::once(io::ErrorKind::Interrupted)).collect();
     for &p in &pos {
         // ---- read faults
-        for fault in kinds.iter().map(|k| RFault::Err(*k)).chain(std::iter::once(RFault::Eof)) {
+        for fault in rkinds.iter().map(|k| RFault::Err(*k)).chain(std::iter::once(RFault::Eof)) {
             c.eval();
             let fcase = || case.clone().p("fault_pos", p).p("fault", format!("{:?}", fault));
             let fname = match fault {
